@@ -13,6 +13,7 @@ func init() {
 }
 
 func runC05(p *Prog, r *Report) {
+	lockBalance(p, r, "C05.7/E1", "protocol/rep", "protocol/respondent", "protocol/xrep", "protocol/xrespondent")
 	q := NewQ(p, r)
 	for _, rel := range []string{"protocol/rep", "protocol/respondent"} {
 		mu := rel + ".socket.Mutex"
@@ -101,6 +102,8 @@ func runC05(p *Prog, r *Report) {
 			}
 			r.Check(okGone, R, rel+"/discarded-if-pipe-gone", cq.Pos(p), "reply freed and nil returned when the arrival pipe has closed", "when the arrival pipe has gone the reply is not discarded (freed, nil)")
 		}
+		q.StoreClasses(R, rel+"/route-set-only-by-RecvMsg", rel+".context.backtrace", map[string]string{rel + ".(*context).RecvMsg": "set,nil?", rel + ".(*context).SendMsg": "nil"})
+		q.StoreClasses(R, rel+"/pipe-set-only-by-RecvMsg", rel+".context.recvPipe", map[string]string{rel + ".(*context).RecvMsg": "set,nil?", rel + ".(*context).SendMsg": "nil"})
 		R = "C05.3/backtrace-parse"
 		r.Describe(R, "receivers move 4-byte words from body to header until the word with the top bit, dropping short messages")
 		rc := q.Fn(R, rel, "pipe", "receiver")
